@@ -143,6 +143,8 @@ def build(case, max_points=1500):
         name = name.upper()
     if case["blank"]:
         name = " ".join(name)
+    ch = GR.fresh(ch)
+    name = GR.fresh(name)
     if case["byname"]:
         # the setting of an R group can be selected by the trailing r of the name alone (cell_choice left at its default)
         plain_for_rhomb = ch == "rhombohedral" and re.sub(r"\s+", "", name).lower()[-1] != "r"
